@@ -416,6 +416,16 @@ class Proc(object):
                 raise Untranslatable("membership in %s" % (lty(cty) if cty not in ("None", "EmptyList") else cty))
             t = "(%s.contains %s)" % (c, x)
             return (t if isinstance(op, ast.In) else "(!%s)" % t, "Bool")
+        if isinstance(a, ast.Call) and isinstance(a.func, ast.Name) and a.func.id == "getattr" and len(a.args) == 3 and isinstance(a.args[1], ast.Constant) \
+                and isinstance(a.args[2], ast.Constant) and a.args[2].value is None and isinstance(b, ast.Constant) and isinstance(b.value, str) and isinstance(op, (ast.Eq, ast.NotEq)):
+            # getattr(x, 'attr', None) == 'text': the object has the attribute and it holds that text
+            bt_, bty_ = self.expr(a.args[0], env)
+            if isinstance(bty_, tuple) and bty_[0] == "Rec":
+                fields_ = self.spec.get("records", {}).get(bty_[1], {})
+                has_, fld_ = fields_.get("has_" + a.args[1].value), fields_.get(a.args[1].value)
+                if has_ and fld_ and fld_[1] == "Str":
+                    t = "(%s.%s && %s.%s == %s)" % (bt_, has_[0], bt_, fld_[0], lstr(b.value))
+                    return (t if isinstance(op, ast.Eq) else "(!%s)" % t, "Bool")
         x, xty = self.expr(a, env)
         y, yty = self.expr(b, env)
         x, y, ty = self.unify(x, xty, y, yty)
@@ -1346,6 +1356,23 @@ class Proc(object):
             if not ok or obj not in env.vars:
                 raise Untranslatable("%s is not `return %s.%s(arg)`" % (s.name, obj, meth))
             return self.block(rest, env.bind(s.name, env.vars[obj][0], env.vars[obj][1]), k)
+        if isinstance(s, ast.FunctionDef) and s.name in self.spec.get("closure_records", {}):
+            # def g(r): return <declared expression of r and captured locals>   - the closure is the record of what it captures (spec["closure_records"]:
+            #   name -> (record, [captured locals in field order], source text of the returned expression)); the body is compared with the declared text
+            rec, caps, body_src = self.spec["closure_records"][s.name]
+            ok = len(s.args.args) == 1 and len(s.body) == 1 and isinstance(s.body[0], ast.Return) and s.body[0].value is not None \
+                and ast.unparse(s.body[0].value).replace(" ", "") == body_src.replace(" ", "") and all(c_ in env.vars for c_ in caps)
+            if not ok:
+                raise Untranslatable("%s is not `return %s`" % (s.name, body_src))
+            return self.block(rest, env.bind(s.name, "(%s.mk %s)" % (rec, " ".join(env.vars[c_][0] for c_ in caps)), ("Rec", rec)), k)
+        if isinstance(s, ast.If) and not s.orelse and ast.unparse(s.test).replace(" ", "") in self.spec.get("attribute_defs", {}):
+            # if hasattr(f, 'deriv'): def deriv(r): return f.deriv(<same argument as the closure>); g.deriv = deriv
+            #   - the closure offers the derivative exactly when what it captures does, evaluated at the same shifted argument (declared text, compared)
+            want = self.spec["attribute_defs"][ast.unparse(s.test).replace(" ", "")]
+            got = "\n".join(ast.unparse(x_) for x_ in s.body).replace(" ", "")
+            if got != want.replace(" ", ""):
+                raise Untranslatable("attribute definition block differs from the declared text: %s" % got[:120])
+            return self.block(rest, env, k)
         if isinstance(s, ast.FunctionDef) and s.name in self.spec.get("zero_defs", []):
             ok = len(s.body) == 1 and isinstance(s.body[0], ast.Return) and isinstance(s.body[0].value, ast.Constant) and s.body[0].value.value == 0.0
             if not ok:
@@ -2324,6 +2351,19 @@ PROCS = [
          implicit=[("createTabulation", ("Fun", [("Rec", "FactoryObj"), ("Rec", "CpT")], ("Except", "TargetErr", ("Rec", "TabulationObj"))))],
          methods={("FactoryObj", "create_tabulation"): ("createTabulation", [("Rec", "CpT")], ("Except", "TargetErr", ("Rec", "TabulationObj")))},
          raises=[("unknown tabulation target specified", "TargetErr.unknownTarget")]),
+    # ---- C09: the trans() modifier
+    dict(name="trans_modifier", file="_modifiers.py", func="trans", drop_logging=True, index_error="TransErr.indexError",
+         params=[("potential_forms", ("List", ("Rec", "PInstS"))), ("potential_form_builder", "Unit")], ret=("Except", "TransErr", ("Rec", "TransObj")),
+         records={"PInstS": {"has_modifier": ("isModifier", "Bool"), "has_potential_form": ("isForm", "Bool"), "modifier": ("name", "Str"), "potential_form": ("name", "Str"),
+                             "parameters": ("parameters", ("List", "Rat")), "start": ("start", ("Rec", "StartRec")), "next": ("next", ("Opt", ("Rec", "PInstS")))},
+                  "StartRec": {"start": ("start", "Rat"), "range_type": ("range_type", "Str")}, "FnObj2": {}, "TransObj": {}},
+         implicit=[("mkFn", ("Fun", [("Rec", "PInstS")], ("Rec", "FnObj2")))],
+         seg_ops={"potential_form_builder.create_potential_function": ("mkFn", [("Rec", "PInstS")], ("Rec", "FnObj2"))},
+         closure_records={"transformed": ("TransObj", ["potential_func", "trans_value"], "potential_func(r+trans_value)")},
+         attribute_defs={"hasattr(potential_func,'deriv')": "def deriv(r):\n    return potential_func.deriv(r+trans_value)\ntransformed.deriv=deriv",
+                         "hasattr(potential_func,'deriv2')": "def deriv2(r):\n    return potential_func.deriv2(r+trans_value)\ntransformed.deriv2=deriv2"},
+         raises=[("only accepts two arguments", "TransErr.notTwoArguments"), ("must be 'as.constant'", "TransErr.secondNotConstant"),
+                 ("should have exactly one parameter", "TransErr.notOneParameter")]),
     # ---- C10 / C16: the glue of the spline() modifier: which part is which, where the spline detaches and attaches, what is refused
     dict(name="spline_modifier", file="_modifiers.py", func="spline", drop_logging=True, index_error="SplErr.indexError",
          params=[("potential_forms", ("List", ("Rec", "PInstS"))), ("potential_form_builder", "Unit")], ret=("Except", "SplErr", ("Rec", "SplObj")),
@@ -2940,6 +2980,15 @@ inductive ModErr where
   | noArguments
 deriving DecidableEq, Repr
 
+/-- what `trans()` returns: the callable of its first argument evaluated at `r + x` (value, and `deriv` / `deriv2` when that callable offers them) -/
+structure TransObj where
+  fn : FnObj2
+  x : Rat
+deriving Repr, DecidableEq
+inductive TransErr where
+  | notTwoArguments | secondNotConstant | notOneParameter | indexError
+deriving DecidableEq, Repr
+
 /-- a definition as the `spline()` modifier receives it: every part read from a file carries its range start (`>0` when none is written) -/
 structure PInstS where
   isModifier : Bool
@@ -2948,6 +2997,7 @@ structure PInstS where
   start : StartRec
   next : Option PInstS
 deriving Repr
+instance : Inhabited PInstS := ⟨⟨false, "", [], ⟨"", 0⟩, none⟩⟩
 def PInstS.isForm (p : PInstS) : Bool := !p.isModifier
 /-- `_Exp_Spline_Factory()` / `_Buck4_Spline_Factory()`: objects without state, told apart by their `spline_keyword` -/
 structure SplFactory where
